@@ -231,7 +231,8 @@ func tailGrid(c *fw.Ctx) {
 // are no longer all there: only the missing tail of the last page tells.  The
 // pad length places the end of V at body start + m for the sizes m at which a
 // reader might read a page in steps (4 KiB ... 1 MiB).  Cuts within 9 bytes of
-// that point are tried.
+// that point are tried.  A second variant writes the tail as a second row
+// group, so the cut falls exactly between two row groups.
 func selfEmbed(c *fw.Ctx) {
 	if !sut.Has("tailstr") {
 		return
@@ -246,28 +247,36 @@ func selfEmbed(c *fw.Ctx) {
 		if !c.MineKey(fmt.Sprintf("selfembed|%d", m)) {
 			continue
 		}
-		file, at, err := buildSelfEmbed(t, m)
-		if err != nil {
-			c.Note("self-embedding file for alignment %d could not be built: %v", m, err)
-			continue
-		}
-		name := fmt.Sprintf("tailstr/uncompressed/selfembed-%d", m)
-		wlCache[name] = families.Workload{Name: name, Target: "tailstr"}
-		fileCache[name] = file
-		for n := at - 9; n <= at+9; n++ {
-			c.Eval()
-			c.Distinct(fmt.Sprintf("%s|%d", name, n))
-			if msg := runPrefixOf(t, file, n, 3); msg != "" {
-				c.Violate(fmt.Sprintf("tailstr|self-embedded footer, cut at body+%d%+d|%s", m, n-at, classify(msg)), msg+fmt.Sprintf("\nworkload %s: the last page holds <pad><own footer, length, PAR1><tail>; the copy ends %d bytes into the page body, the file is cut %d bytes from there", name, m, n-at), "selfembed", tcase{name, n})
+		for _, split := range []bool{false, true} {
+			if split && m != 4096 && m != 65536 {
+				continue
 			}
+			file, at, err := buildSelfEmbed(t, m, split)
+			if err != nil {
+				c.Note("self-embedding file for alignment %d could not be built: %v", m, err)
+				continue
+			}
+			name := fmt.Sprintf("tailstr/uncompressed/selfembed-%d", m)
+			if split {
+				name = fmt.Sprintf("tailstr/uncompressed/selfembed2rg-%d", m)
+			}
+			wlCache[name] = families.Workload{Name: name, Target: "tailstr"}
+			fileCache[name] = file
+			for n := at - 9; n <= at+9; n++ {
+				c.Eval()
+				c.Distinct(fmt.Sprintf("%s|%d", name, n))
+				if msg := runPrefixOf(t, file, n, 3); msg != "" {
+					c.Violate(fmt.Sprintf("tailstr|self-embedded footer, cut at body+%d%+d|%s", m, n-at, classify(msg)), msg+fmt.Sprintf("\nworkload %s: the last page holds <pad><own footer, length, PAR1><tail>; the copy ends %d bytes into the page body, the file is cut %d bytes from there", name, m, n-at), "selfembed", tcase{name, n})
+				}
+			}
+			delete(fileCache, name)
+			delete(wlCache, name)
 		}
-		delete(fileCache, name)
-		delete(wlCache, name)
 	}
 }
 
 // buildSelfEmbed returns the file and the offset right after the embedded copy.
-func buildSelfEmbed(t *sut.Target, m int) ([]byte, int, error) {
+func buildSelfEmbed(t *sut.Target, m int, split bool) ([]byte, int, error) {
 	flen := 200
 	for iter := 0; iter < 8; iter++ {
 		vlen := flen + 8
@@ -281,7 +290,13 @@ func buildSelfEmbed(t *sut.Target, m int) ([]byte, int, error) {
 				{Group: []refpq.Val{{Leaf: int32(2)}, {Leaf: string(v)}}},
 				{Group: []refpq.Val{{Leaf: int32(3)}, {Leaf: strings.Repeat("\xff", 300)}}},
 			}
-			f, err, pm := drive.WriteFile(t, [][]interface{}{oracle.GoRecs(t, recs)}, nil, 3, sut.Uncompressed, nil)
+			g := oracle.GoRecs(t, recs)
+			batches := [][]interface{}{g}
+			if split {
+				// two row groups: the copy is the last value of the first one
+				batches = [][]interface{}{g[:2], g[2:]}
+			}
+			f, err, pm := drive.WriteFile(t, batches, nil, 3, sut.Uncompressed, nil)
 			if err != nil || pm != "" {
 				return nil, fmt.Errorf("%v %s", err, pm)
 			}
@@ -400,11 +415,12 @@ func replay(c *fw.Ctx, kind string, data json.RawMessage) string {
 	if err := json.Unmarshal(data, &tc); err != nil {
 		return "bad case: " + err.Error()
 	}
-	if strings.Contains(tc.Workload, "/selfembed-") {
+	if strings.Contains(tc.Workload, "/selfembed") {
 		var m int
-		fmt.Sscanf(tc.Workload[strings.Index(tc.Workload, "/selfembed-"):], "/selfembed-%d", &m)
+		split := strings.Contains(tc.Workload, "/selfembed2rg-")
+		fmt.Sscanf(tc.Workload[strings.LastIndex(tc.Workload, "-")+1:], "%d", &m)
 		t := sut.Get("tailstr")
-		file, _, err := buildSelfEmbed(t, m)
+		file, _, err := buildSelfEmbed(t, m, split)
 		if err != nil {
 			return "harness: " + err.Error()
 		}
